@@ -117,6 +117,14 @@ def nested(path, v):
     return d
 
 
+def merge(a, b):
+    """deep merge of two nested dictionaries (disjoint leaves)"""
+    out = dict(a)
+    for k, v in b.items():
+        out[k] = merge(out[k], v) if isinstance(out.get(k), dict) and isinstance(v, dict) else v
+    return out
+
+
 def us(path):
     return "_".join(path)
 
@@ -285,7 +293,7 @@ def sibling(leaf, leaves):
 
 # ------------------------------------------------------------------------------------------------ a case
 class Case:
-    def __init__(self, cls, leaf, tid0, label="", preset_m=True):
+    def __init__(self, cls, leaf, tid0, label="", preset_m=True, kids=False):
         self.env = env = Env.get()
         cat = env.catalogue()
         self.cls, self.leaf, self.label = cls, leaf, label
@@ -301,6 +309,14 @@ class Case:
         self.nd = 0
         self.rids = {}
         self.obj = {n: env.make(c) for n, c in self.clsof.items()}
+        self.kids = {n: [] for n in self.clsof}
+        if kids:
+            # collections for set_children_styles: k = [o, k2], k2 = [x] (another family, one level down), k3 = [w]; c stays outside
+            self.kids.update({"k": ["o", "k2"], "k2": ["x"], "k3": ["w"]})
+            for n in ("k2", "k3", "k"):
+                self.clsof[n] = "Collection"
+                self.obj[n] = env.magpy.Collection(*[self.obj[ch] for ch in self.kids[n]])
+        self.saved_arg = None
         # the sibling leaf of o carries a value from the start (round trips must preserve it)
         if cls != "Markers" and preset_m:
             setattr(walk(self.obj["o"].style, self.mpath[:-1]), self.mpath[-1], self.MT["v1"])
@@ -356,7 +372,7 @@ class Case:
             return None
         if v == BAD:
             return copy.deepcopy(T["bad"])
-        if l == "m":
+        if l == "m" and v not in ("v1", "v2"):
             return copy.deepcopy(T["v1"])
         return copy.deepcopy(T[v])       # the implementation never gets the table's own (mutable) value
 
@@ -422,6 +438,50 @@ class Case:
         else:
             raise MachineryError(f"unknown default notation {n}")
 
+    def set_kids(self, tgt, n, asg, rec, badname):
+        """coll.set_children_styles in one of its notations; asg: {"l": abstract value[, "m": abstract value]}.
+        Returns whether a dictionary handed in was changed by the call."""
+        n, _, opt = n.partition("+")
+        lp = self.path[:-1] + ["zzz"] if badname else self.path
+        lv = self.real(asg["l"], "l") if "l" in asg else None
+        mv = self.real(asg["m"], "m") if "m" in asg else None
+        arg, kw = None, {}
+        if n == "kids_reuse":            # the very dictionary object that an earlier call was given
+            arg = self.saved_arg
+        elif set(asg) == {"l"}:
+            if n == "kids_us":
+                kw = {us(lp): lv}
+            elif n == "kids_dict":
+                arg = nested(lp, lv)
+            elif n == "kids_flat":
+                arg = {us(lp): lv}
+            else:
+                raise MachineryError(f"unknown set_children_styles notation {n} for one leaf")
+        elif set(asg) == {"l", "m"}:
+            if n == "kids_us2":
+                kw = {us(lp): lv, us(self.mpath): mv}
+            elif n == "kids_dict2":
+                arg = merge(nested(lp, lv), nested(self.mpath, mv))
+            elif n == "kids_mixed":          # dictionary for m, underscore keyword for l
+                arg, kw = nested(self.mpath, mv), {us(lp): lv}
+            elif n == "kids_mixed_rev":      # dictionary for l, underscore keyword for m
+                arg, kw = nested(lp, lv), {us(self.mpath): mv}
+            else:
+                raise MachineryError(f"unknown set_children_styles notation {n} for two leaves")
+        else:
+            raise MachineryError(f"unsupported leaves {sorted(asg)}")
+        before = key(arg) if arg is not None else None
+        if n != "kids_reuse":
+            self.saved_arg = arg
+        args = (arg,) if arg is not None else ()
+        try:
+            if opt == "recpos":
+                self.obj[tgt].set_children_styles(arg, rec, **kw)
+            else:
+                self.obj[tgt].set_children_styles(*args, recursive=rec, **kw)
+        finally:
+            self.argchanged = arg is not None and key(arg) != before
+
     def resolve(self, names, kwargs, via):
         """the styles the display code resolves for the named objects: {name: {"l":..,"m":..}}"""
         env = self.env
@@ -472,8 +532,15 @@ class Case:
         kwabs = {"l": NONE, "m": NONE}
         outcome, exc, res = "ok", "", {}
         self.rendererr = ""
+        self.argchanged = False
+        asgabs = {"l": NONE}
         try:
-            if op == "SetObj":
+            if op == "SetKids":
+                asgabs = dict(d["asg"])
+                if asgabs.get("m") in ("v1", "v2"):
+                    asgabs["m"] = self.vid(self.MT[asgabs["m"]])
+                self.set_kids(tgt, n, d["asg"], bool(d.get("rec", True)), bool(d.get("badname", False)))
+            elif op == "SetObj":
                 self.set_obj(tgt, n, path, self.real(v, l), lazy=d.get("lazy", False))
             elif op == "SetDef":
                 self.set_def(tgt, n, path, self.real(v, l))
@@ -513,10 +580,11 @@ class Case:
                 res, reserr = {}, type(ex).__name__     # the display code could not resolve a style in this state
         vabs = v
         if l == "m" and v not in (NONE, BAD):
-            vabs = self.vid(self.MT["v1"])
+            vabs = self.vid(self.MT[v] if v in ("v1", "v2") else self.MT["v1"])
         ev = {"tid": self.tid, "op": op, "tgt": tgt, "src": d.get("src", ""), "l": l if op in ("SetObj", "SetDef") else "",
               "v": vabs, "kw": kwabs, "badname": bool(d.get("badname", False)), "notation": n or op.lower(), "via": d.get("via", ""),
-              "outcome": outcome, "exc": exc, "post": post, "res": res, "reserr": reserr, "rendererr": self.rendererr}
+              "outcome": outcome, "exc": exc, "post": post, "res": res, "reserr": reserr, "rendererr": self.rendererr,
+              "asg": asgabs, "rec": bool(d.get("rec", False)), "argchanged": bool(self.argchanged)}
         self.tid += 1
         self.steps.append(ev)
         self.descr.append(d)
@@ -525,7 +593,7 @@ class Case:
     def finish(self, case_id, checkfresh=False):
         self.env.restore_defaults()
         return {"case": case_id, "label": self.label, "cls": self.cls, "leaf": self.leaf.replace(".", "_"), "leaf_dotted": self.leaf, "mleaf": self.mleaf.replace(".", "_"),
-                "checkfresh": bool(checkfresh), "clsof": self.clsof, "has": self.has, "fhas": self.fhas, "def0": self.def0,
+                "checkfresh": bool(checkfresh), "kidsworld": "k" in self.obj, "clsof": self.clsof, "kids": self.kids, "has": self.has, "fhas": self.fhas, "def0": self.def0,
                 "init": self.init, "steps": self.steps, "descr": self.descr}
 
 
@@ -544,6 +612,10 @@ def R(res=()):
 
 def C(src="o", tgt="c", res=()):
     return {"op": "Copy", "src": src, "tgt": tgt, "res": list(res)}
+
+
+def K(tgt, asg, n, rec=True, res=(), badname=False):
+    return {"op": "SetKids", "tgt": tgt, "asg": dict(asg), "n": n, "rec": rec, "res": list(res), "badname": badname}
 
 
 def SH(v, n, via="direct", res=("o", "w", "x"), badname=False):
@@ -716,14 +788,66 @@ def sequences(cls, leaf, tier_, idx=0):
     # 9. a style dictionary given to two constructors
     if has_obj:
         out.append(("shared_dict", [{"op": "SharedDict"}]))
-    # 10. thorough: seeded random histories
+    # 10. Collection.set_children_styles (k = [o, k2], k2 = [x], k3 = [w]; c outside), interleaved with the other actions
+    if has_obj:
+        kn1 = ["kids_us", "kids_dict"] + (["kids_flat"] if len(path) > 1 else [])
+        kn2 = ["kids_us2", "kids_dict2", "kids_mixed", "kids_mixed_rev"]
+        every = ["o", "x"]
+        other_v = NONE if none_ok else "v2"
+        for n in (kn1 if primary else kn1[:1]):
+            for rec in (True, False):
+                out.append((f"kids:single:{n}:{rec}", [K("k", {"l": "v1"}, n, rec, res=every)]))
+        if primary:
+            out.append(("kids:recpos", [K("k", {"l": "v1"}, "kids_dict+recpos", False, res=every), K("k", {"l": "v2"}, "kids_us+recpos", True, res=every)]))
+        # last assignment wins in both orders, with own assignments in several notations
+        for n2 in (["attr", "update_us", "assign_dict"] if primary else ["update_us"]):
+            if primary:
+                out.append((f"kids:then:{n2}", [K("k", {"l": "v1"}, "kids_us"), S("o", "v2", n2, res=["o"]), K("k2", {"l": "v2"}, "kids_dict", res=every)]))
+            out.append((f"kids:after:{n2}", [S("o", "v2", n2), S("w", "v2", n2), K("k", {"l": "v1"}, kn1[-1], res=every)]))
+        out.append(("kids:twice", [K("k", {"l": "v1"}, "kids_us"), K("k", {"l": "v2"}, "kids_dict", False, res=every)]
+                    + ([K("k", {"l": NONE}, "kids_us", True, res=every)] if none_ok else [])))
+        # own values given by the collection sit between the defaults and the show keywords
+        if fams and (primary or fams[0] != "base"):
+            out.append(("kids:precedence", ([S("o", NONE, "attr"), S("w", NONE, "attr")] if none_ok else [])
+                        + [DF(fams[0], "v2", "def_attr", res=every), K("k", {"l": "v1"}, "kids_us", res=every), SH("v2", "show_us"), SH(NONE, "show_us"),
+                           DF(fams[-1], "v1" if len(fams) > 1 else "v2", "def_update_style", res=every)]
+                        + ([K("k", {"l": NONE}, "kids_dict", res=every)] if none_ok else []) + [R(res=every)]))
+        # two leaves in one call: the notations are equivalent
+        for n in (kn2 if primary else kn2[2:3]):
+            out.append((f"kids:two:{n}", [K("k", {"l": "v1", "m": "v2"}, n, True, res=["o"])]))
+        # the dictionary handed in stays the caller's: used again for another collection it must mean what the caller wrote
+        out.append(("kids:reuse", [K("k", {"l": "v1", "m": "v2"}, "kids_mixed"), K("k3", {"m": "v2"}, "kids_reuse", res=["w"])]))
+        # invalid names and values reject the whole call
+        seq = [S("o", "v1", "attr")]
+        for n in (kn1 if primary else kn1[:1]):
+            seq.append(K("k", {"l": "v2"}, n, badname=True))
+            if T["bad"] is not None:
+                seq.append(K("k", {"l": BAD}, n))
+        if T["bad"] is not None:
+            seq.append(K("k", {"l": BAD, "m": "v2"}, "kids_us2"))
+            seq.append(K("k", {"l": BAD, "m": "v2"}, "kids_mixed_rev"))
+        if leaf_type(sibling(leaf, [k for k in cat["obj"][cls] if leaf_type(k.split(".")) is not None]).split("."))["bad"] is not None:
+            seq.append(K("k", {"l": "v2", "m": BAD}, "kids_us2"))
+            seq.append(K("k", {"l": "v2", "m": BAD}, "kids_dict2"))
+            seq.append(K("k", {"l": "v2", "m": BAD}, "kids_mixed"))
+        if T["bad"] is not None:
+            seq.append(K("k2", {"l": BAD}, "kids_us"))          # only x is below k2
+        seq.append(K("k2", {"l": "v2"}, "kids_us", badname=True))
+        seq.append(K("k", {"l": "v2"}, "kids_us", res=every))
+        out.append(("kids:invalid", seq))
+        # copies and resets
+        if primary:
+            out.append(("kids:copy", [K("k", {"l": "v1"}, "kids_us"), C(), S("c", "v2", "attr", res=["o", "c"]), K("k", {"l": other_v}, "kids_dict", res=["o", "c"])]))
+        if fams and primary:
+            out.append(("kids:reset", [K("k", {"l": "v1"}, "kids_us"), DF(fams[0], "v2", "def_attr"), R(res=every)]))
+    # 11. thorough: seeded random histories
     if thorough and has_obj:
         r = rng(f"c20:{cls}:{leaf}")
         for h in range(4):
             seq = []
             copied = False
             for _ in range(30):
-                kind = r.choice(["obj", "obj", "obj", "def", "def", "reset", "copy", "show", "bad"])
+                kind = r.choice(["obj", "obj", "obj", "def", "def", "reset", "copy", "show", "bad"] + (["kids", "kids"] if h % 2 else []))
                 val = r.choice(["v1", "v2"] + ([NONE] if none_ok else []))
                 who = r.choice(["o", "w"] + (["c"] if copied else []))
                 if kind == "obj":
@@ -739,6 +863,12 @@ def sequences(cls, leaf, tier_, idx=0):
                     seq.append(SH(val, r.choice(shown)))
                 elif kind == "bad":
                     seq.append(S(who, "v1", r.choice(mut), l="bad"))
+                elif kind == "kids":
+                    if r.random() < 0.3:
+                        seq.append(K(r.choice(["k", "k2", "k3"]), {"l": val, "m": r.choice(["v1", "v2"])}, r.choice(["kids_us2", "kids_dict2", "kids_mixed", "kids_mixed_rev"]),
+                                     r.random() < 0.5, res=["o", "w", "x"]))
+                    else:
+                        seq.append(K(r.choice(["k", "k2", "k3"]), {"l": val}, r.choice(["kids_us", "kids_dict"]), r.random() < 0.5, res=["o", "w", "x"]))
             out.append((f"random:{h}", seq))
     return out
 
@@ -756,7 +886,8 @@ def run_shared_dict(case):
         outcome, exc = "raise", type(ex).__name__
     post = case.project()
     case.steps.append({"tid": case.tid, "op": "SetObj", "tgt": "o", "src": "", "l": "l", "v": "v1", "kw": {"l": NONE, "m": NONE}, "badname": False,
-                       "notation": "ctor_mixed", "via": "", "outcome": outcome, "exc": exc, "post": post, "res": {}, "reserr": ""})
+                       "notation": "ctor_mixed", "via": "", "outcome": outcome, "exc": exc, "post": post, "res": {}, "reserr": "",
+                       "asg": {"l": NONE}, "rec": False, "argchanged": False})
     case.tid += 1
     # step 2: SetObj(w, m, M1) by constructing w from the same dictionary object
     outcome, exc = "ok", ""
@@ -767,14 +898,16 @@ def run_shared_dict(case):
         outcome, exc = "raise", type(ex).__name__
     post = case.project()
     case.steps.append({"tid": case.tid, "op": "SetObj", "tgt": "w", "src": "", "l": "m", "v": case.vid(case.MT["v1"]), "kw": {"l": NONE, "m": NONE},
-                       "badname": False, "notation": "ctor_shared_dict", "via": "", "outcome": outcome, "exc": exc, "post": post, "res": {}, "reserr": ""})
+                       "badname": False, "notation": "ctor_shared_dict", "via": "", "outcome": outcome, "exc": exc, "post": post, "res": {}, "reserr": "",
+                       "asg": {"l": NONE}, "rec": False, "argchanged": False})
     case.tid += 1
     case.descr.append({"op": "SharedDict"})
 
 
 def run_sequence(cls, leaf, label, seq, tid0, case_id, checkfresh=False):
     # a constructor notation creates the object o: then o cannot carry a sibling value from before
-    case = Case(cls, leaf, tid0, label, preset_m=not (seq and "ctor" in str(seq[0].get("n", ""))))
+    case = Case(cls, leaf, tid0, label, preset_m=not (seq and "ctor" in str(seq[0].get("n", ""))),
+                kids=any(d["op"] == "SetKids" for d in seq))
     for d in seq:
         if d["op"] == "SharedDict":
             run_shared_dict(case)
